@@ -1162,6 +1162,7 @@ package bpmn
 // every later caller gets completeAction (its token ends) and touches nothing.
 //@ func (*eventBasedGateway).run$2
 //@   prop C06
+//@   flag nonblocking
 //@   closureinv terminationChannels != nil && ebgChannels(terminationChannels)
 //@   ensures [the-first-caller-wins] old(first) == 0 ==> result == action && first == 1
 //@   ensures [winner-announces-once] old(first) == 0 ==> count(Trace, DeterminationMadeTrace) == old(count(Trace, DeterminationMadeTrace)) + 1
